@@ -378,7 +378,7 @@ impl Index {
             text.push_str(&f.text[pos..a.start]);
             if a.start == a.end {
                 text.push_str("pub ");
-                dropped.push("private field made pub".to_string());
+                dropped.push("private item or field made pub".to_string());
                 pos = a.end;
                 continue;
             }
@@ -418,10 +418,18 @@ fn find_types<'a>(items: &'a [syn::Item], name: &str, f: &'a SrcFile, out: &mut 
                         attrs.push(at..at);
                     }
                 }
+                if matches!(s.vis, syn::Visibility::Inherited) {
+                    let at = s.struct_token.span().byte_range().start;
+                    attrs.push(at..at);
+                }
                 out.push((f, s.span().byte_range(), attrs));
             }
             syn::Item::Enum(e) if e.ident == name => {
                 let mut attrs: Vec<_> = e.attrs.iter().map(|a| a.span().byte_range()).collect();
+                if matches!(e.vis, syn::Visibility::Inherited) {
+                    let at = e.enum_token.span().byte_range().start;
+                    attrs.push(at..at);
+                }
                 for v in e.variants.iter() {
                     attrs.extend(v.attrs.iter().map(|a| a.span().byte_range()));
                     for fld in v.fields.iter() {
